@@ -6,6 +6,7 @@ mod nucleo_cmd;
 mod parsort_cmd;
 mod probe_cmd;
 mod sched;
+mod scratch_cmd;
 
 /// live bytes / allocations are counted for the leak probe (`hn leak`)
 #[global_allocator]
@@ -23,6 +24,7 @@ fn main() {
         "layout" => probe_cmd::layout(&args[2..]),
         "layout-types" => println!("{}", probe_cmd::LAYOUT_TYPES.join(" ")),
         "leak" => probe_cmd::leak(),
+        "scratch-probe" => scratch_cmd::run(&args[2..]),
         _ => {
             eprintln!("usage: hn boxcar FILE | layout TYPE [CASE] | leak | ...");
             std::process::exit(2)
